@@ -41,6 +41,10 @@ def body(text):
     return out
 
 
+# attribute / specifier keywords whose loss changes the meaning of a statement
+ATTRS = set("public private parameter save allocatable pointer target optional intent in out inout dimension external intrinsic recursive pure elemental".split())
+
+
 def content_tokens(text, from_source=True):
     """names (non-keyword identifiers), literals and dotted operators of one
     statement"""
@@ -52,6 +56,9 @@ def content_tokens(text, from_source=True):
     for i, (k, t) in enumerate(toks):
         if k == "id":
             low = t.lower()
+            if low in ATTRS:
+                out.append("<" + low + ">")
+                continue
             if low in FOLD or low in ("c",):
                 continue
             if low in ("b", "o", "z") and i + 1 < len(toks) and toks[i + 1][0] == "str":
@@ -118,7 +125,14 @@ def judge(src, isfree, analyze, ic, model_stmts):
             continue
         want = ([str(int(label))] if label else []) + ([name.lower()] if name else []) + content_tokens(text)
         got = content_tokens(line, False)
-        if got != want:
+
+        def split(toks):
+            # attribute keywords may be printed in another order (prefix of a
+            # FUNCTION statement): compared as a multiset; names, literals and
+            # operators in sequence
+            return [t for t in toks if not t.startswith("<")], sorted(t for t in toks if t.startswith("<"))
+
+        if split(got) != split(want):
             return "content-differs", "statement %d: source %r -> %r\n  names/literals in source: %r\n  in regenerated text     : %r" % (i + 1, text, line, want, got)
     return None, None
 
